@@ -323,7 +323,7 @@ type c07Case struct {
 }
 
 // allowedChange reports whether a write to w may change what is read at address x.
-func allowedChange(w, x uint16, kind ref.CartKind, ch3On bool) bool {
+func allowedChange(w, x uint16, v uint8, kind ref.CartKind, ch3On bool) bool {
 	if x == w {
 		return true // its own readable value
 	}
@@ -347,7 +347,10 @@ func allowedChange(w, x uint16, kind ref.CartKind, ch3On bool) bool {
 		// powering off stops channel 3: what FF30-FF3F read may change then, but only then (wave RAM is not a sound
 		// register and is not cleared)
 		return (x >= 0xff10 && x <= 0xff26) || (ch3On && x >= 0xff30 && x <= 0xff3f)
-	case w == 0xff10, w == 0xff12, w == 0xff17, w == 0xff21, w == 0xff14, w == 0xff19, w == 0xff23:
+	case w == 0xff12, w == 0xff17, w == 0xff21:
+		// an envelope register switches its channel off only by switching the DAC off (bits 3-7 all zero)
+		return x == 0xff26 && v&0xf8 == 0
+	case w == 0xff10, w == 0xff14, w == 0xff19, w == 0xff23:
 		return x == 0xff26 // only the written channel's status bit: see allowedBits
 	case w == 0xff1a, w == 0xff1e:
 		return x == 0xff26 || (x >= 0xff30 && x <= 0xff3f)
@@ -417,7 +420,7 @@ func c07Check(l *explore.Local, repo string, c c07Case) *explore.Fail {
 			l.Trans(1)
 			ch3On = ch3On || cur[0xff26]&0x04 != 0
 			for x := 0; x < 0x10000; x++ {
-				if cur[x] != prev[x] && (!allowedChange(w, uint16(x), kind, ch3On) || (cur[x]^prev[x])&^allowedBits(w, uint16(x)) != 0) {
+				if cur[x] != prev[x] && (!allowedChange(w, uint16(x), v, kind, ch3On) || (cur[x]^prev[x])&^allowedBits(w, uint16(x)) != 0) {
 					return explore.Failf(fmt.Sprintf("a write to %s changes an unrelated location", c07Region(w)),
 						"state %s: %04x<-%02x changed %04x from %02x to %02x", c.State, w, v, x, prev[x], cur[x])
 				}
